@@ -13,7 +13,7 @@
 EXTENDS ClfLock, Json, IOUtils, TLCExt
 
 VARIABLES tid, l
-tvars == <<lock, inDriver, device, closer, pc, tid, l>>
+tvars == <<lock, inDriver, device, ref, closer, pc, tid, l>>
 
 Traces == ndJsonDeserialize(IOEnv.TRACE_FILE)
 T == Traces[tid].ev
@@ -24,6 +24,7 @@ TInit ==
     /\ lock = Free
     /\ inDriver = {}
     /\ device = Traces[tid].init.dev
+    /\ ref = (Traces[tid].init.dev = "open")
     /\ closer = ""
     /\ pc = [t \in Thread |-> Idle]
 
@@ -47,7 +48,7 @@ GAcq   == /\ IsEv("Acq")
                 /\ Set2(Ev.sites) \subseteq Segs(Ev.t)[k].calls
                 /\ pc' = [pc EXCEPT ![Ev.t].seg = k, ![Ev.t].chk = ~Ev.devnone]
           /\ lock' = Ev.t
-          /\ UNCHANGED <<inDriver, device, closer>>
+          /\ UNCHANGED <<inDriver, device, ref, closer>>
 GRel   == IsEv("Rel") /\ lock = Ev.t /\ Release(Ev.t)
 
 GEnter == /\ IsEv("Enter")
@@ -55,9 +56,9 @@ GEnter == /\ IsEv("Enter")
           /\ inDriver' = inDriver \cup {Ev.t}
           /\ pc' = EnterPc(Ev.t, Ev.site)
           /\ device' = IF SiteM[Ev.site] = "close" THEN "closed" ELSE device
-          /\ closer' = IF SiteM[Ev.site] = "close" THEN Ev.site ELSE closer
-          /\ UNCHANGED lock
-GExit  == IsEv("Exit") /\ Exit(Ev.t)
+          /\ closer' = IF SiteM[Ev.site] = "close" /\ device = "open" THEN Ev.site ELSE closer
+          /\ UNCHANGED <<lock, ref>>
+GExit  == IsEv("Exit") /\ ExitF(Ev.t, Ev.ok)          \* ok: the driver method returned (FALSE: it raised)
 Guarded == GBegin \/ GEnd \/ GAcq \/ GRel \/ GEnter \/ GExit
 
 \* static table vs dynamic observation, and the harness' own view of who holds the lock
@@ -67,6 +68,7 @@ ResOk == CASE Ev.a = "Enter" -> /\ SiteM[Ev.site] = Ev.m
 PostOk == /\ lock' = Ev.lock
           /\ inDriver' = Set2(Ev.indrv)
           /\ device' = Ev.dev
+          /\ ref' = ~Ev.devnone                         \* the frontend's self.device is (not) None
 
 InvNames == <<"Mutex", "HolderOnly", "NotAfterClose", "Consistent">>
 InvP(n) == CASE n = "Mutex" -> MutexP(inDriver', pc')
@@ -78,17 +80,23 @@ AllInv == \A i \in DOMAIN InvNames : InvP(InvNames[i])
 Real == Guarded /\ ResOk /\ PostOk /\ AllInv
 
 FailedInv == SelectSeq(InvNames, LAMBDA n : ~ENABLED (Guarded /\ ResOk /\ PostOk /\ InvP(n)))
-Why == IF ~ENABLED Guarded THEN <<"guard", [lock |-> lock, dev |-> device, pc |-> pc[Ev.t]]>>
+\* the call site to blame for a violated invariant: the entering call's own site, unless the call was made
+\* in good faith (device test passed under the lock) on a driver that a close() had already closed while the
+\* frontend kept its reference - then the close() call site
+Blame == IF Ev.a = "Enter" /\ Ev.site \in Site /\ EnterPc(Ev.t, Ev.site)[Ev.t].hit # ""
+              /\ ~EnterPc(Ev.t, Ev.site)[Ev.t].late /\ lock = Ev.t
+         THEN EnterPc(Ev.t, Ev.site)[Ev.t].hit ELSE Ev.site
+Why == IF ~ENABLED Guarded THEN <<"guard", [lock |-> lock, dev |-> device, ref |-> ref, pc |-> pc[Ev.t]]>>
        ELSE IF ~ENABLED (Guarded /\ ResOk) THEN <<"result", [lock |-> lock]>>
-       ELSE IF ~ENABLED (Guarded /\ ResOk /\ PostOk) THEN <<"post", [lock |-> lock, dev |-> device, indrv |-> inDriver]>>
-       ELSE <<"inv", FailedInv>>
+       ELSE IF ~ENABLED (Guarded /\ ResOk /\ PostOk) THEN <<"post", [lock |-> lock, dev |-> device, ref |-> ref, indrv |-> inDriver]>>
+       ELSE <<"inv", FailedInv, Blame>>
 
 Stuck ==
     /\ l <= Len(T)
     /\ ~ENABLED Real
     /\ PrintT(<<"STUCK", Traces[tid].id, l, Ev.a, Why>>)
     /\ l' = Len(T) + 2
-    /\ UNCHANGED <<lock, inDriver, device, closer, pc, tid>>
+    /\ UNCHANGED <<lock, inDriver, device, ref, closer, pc, tid>>
 
 TNext == Real \/ Stuck
 TSpec == TInit /\ [][TNext]_tvars
